@@ -1,1 +1,69 @@
-fn main(){}
+//! clmc — bounded exhaustive exploration of the CL03 properties (C13–C19) on the real zkryptium (feature cl03).
+//!   clmc check <ID> [--tier quick|thorough] | replay <file>
+mod common;
+mod c13;
+mod c14;
+mod c15;
+mod c16;
+mod c17;
+mod c18;
+mod c19;
+mod indep;
+
+use common::Env;
+use mccore::{Ctx, Out, Tier};
+use zkryptium::cl03::ciphersuites::{CL1024Sha256, CL2048Sha256, CL3072Sha256};
+
+fn level_of(id: &str) -> &'static str { match id { "C17" | "C18" | "C19" => "exploration", _ => "model_checking" } }
+
+fn run(id: &str, tier: Tier, seed: u64, only_root: Option<String>, out: &Out) -> i32 {
+    let env = Env::new(Ctx::new(id, tier, seed, level_of(id)), only_root);
+    env.ctx.assume("trusted base: rug/GMP big-integer arithmetic (shared with the subject), sha2; generic-C GMP bootstrapped offline");
+    env.ctx.assume("keys are generated afresh on every run by the real KeyPair::generate (random draws are samples; shapes are enumerated exhaustively)");
+    let t = tier.thorough();
+    match id {
+        "C13" => { let p = std::sync::Mutex::new(Vec::new()); c13::run::<CL1024Sha256>(&env, &p); if t { c13::run::<CL2048Sha256>(&env, &p); } indep::check_primes(&env, &p.into_inner().unwrap()); }
+        "C14" => { c14::run::<CL1024Sha256>(&env); if t { c14::run::<CL2048Sha256>(&env); } }
+        "C15" => { c15::run::<CL1024Sha256>(&env); if t { c15::run::<CL2048Sha256>(&env); } }
+        "C16" => { c16::run::<CL1024Sha256>(&env); if t { c16::run::<CL2048Sha256>(&env); } }
+        "C17" => { c17::run::<CL1024Sha256>(&env); if t { c17::run::<CL2048Sha256>(&env); } }
+        "C18" => { c18::run::<CL1024Sha256>(&env); if t { c18::run::<CL2048Sha256>(&env); c18::run::<CL3072Sha256>(&env); } }
+        "C19" => { c19::run::<CL1024Sha256>(&env); if t { c19::run::<CL2048Sha256>(&env); } }
+        _ => { out.line(&format!("MACHINERY-ERROR: unknown property {}", id)); return 2; }
+    }
+    let code = env.ctx.finish(out);
+    if env.has_machinery_error() { out.line("MACHINERY-ERROR: harness failure (see notes in evidence)"); return 2; }
+    code
+}
+
+fn main() {
+    let args: Vec<String> = std::env::args().collect();
+    let out = Out::capture();
+    mccore::quiet_panics();
+    let seed: u64 = std::env::var("VERIF_SEED").ok().and_then(|s| s.parse().ok()).unwrap_or(0);
+    let code = match args.get(1).map(|s| s.as_str()) {
+        Some("check") => {
+            let id = args.get(2).cloned().unwrap_or_default();
+            let mut tier = match std::env::var("VERIF_TIER").as_deref() { Ok("thorough") => Tier::Thorough, _ => Tier::Quick };
+            if let Some(p) = args.iter().position(|a| a == "--tier") { tier = if args.get(p + 1).map(|s| s.as_str()) == Some("thorough") { Tier::Thorough } else { Tier::Quick }; }
+            let only = args.iter().position(|a| a == "--root").and_then(|p| args.get(p + 1).cloned());
+            run(&id, tier, seed, only, &out)
+        }
+        Some("replay") => {
+            let path = args.get(2).cloned().unwrap_or_default();
+            match std::fs::read_to_string(&path).ok().and_then(|s| serde_json::from_str::<serde_json::Value>(&s).ok()) {
+                None => { out.line(&format!("MACHINERY-ERROR: cannot read replay file {}", path)); 2 }
+                Some(v) => {
+                    let id = v["property"].as_str().unwrap_or("").to_string();
+                    let root = v["case"]["root"].as_str().unwrap_or("").to_string();
+                    let tier = if v["case"]["tier"] == "thorough" { Tier::Thorough } else { Tier::Quick };
+                    out.line(&format!("replaying {} root={} with freshly generated keys (recorded: {})", id, root, v["what"].as_str().unwrap_or("")));
+                    std::env::set_var("VERIF_REPLAY", "1");
+                    run(&id, tier, v["case"]["seed"].as_u64().unwrap_or(0), Some(root), &out)
+                }
+            }
+        }
+        _ => { out.line("usage: clmc check <ID> [--tier quick|thorough] | replay <file>"); 2 }
+    };
+    std::process::exit(code);
+}
